@@ -241,12 +241,32 @@ class DependencyMonitor(Monitor):
                 good = len(okc) >= 1
                 why = "needs one finished upstream"
             elif j == "OR":
-                act = pre["ctx"].get("_activated_branches")
-                if act is None:
-                    good = len(okc) == len(ups)
-                else:
-                    good = all(ups[d] in CONTINUABLE for d in act if d in ups)
-                why = "OR join needs every activated branch"
+                # independent of the engine's own bookkeeping (_activated_branches): an upstream either finished in a
+                # continuable status, or it sits on a branch the split deselected (itself or one of its ancestors is
+                # durably SKIPPED) and will never run; anything else is an activated branch still in flight
+                roots = set()  # branch roots the OR-splits upstream have deselected, from their durable outputs
+                for a in ex.wl.ancestors(lab):
+                    sp = ex.wl.spec(a)
+                    if sp is None or sp.split != "OR" or tr.pre.stages[a]["status"] not in CONTINUABLE:
+                        continue
+                    from stabilize.expressions import ExpressionError, evaluate_expression
+
+                    env = dict(tr.pre.stages[a]["ctx"])
+                    env.update(tr.pre.stages[a]["out"])
+                    for ref, cond in sp.split_conditions.items():
+                        try:
+                            on = bool(evaluate_expression(cond, env))
+                        except ExpressionError:
+                            on = False
+                        if not on:
+                            roots.add(ref)
+
+                def deselected(u):
+                    return u in roots or bool(roots & set(ex.wl.ancestors(u))) or \
+                        tr.pre.stages.get(u, {}).get("status") == "SKIPPED"
+
+                good = all(st_ in CONTINUABLE or deselected(u) for u, st_ in ups.items())
+                why = "OR join needs every activated branch finished"
             if not good:
                 v.append({"kind": "started-before-dependencies", "stage": lab, "join": j, "upstream": ups, "why": why,
                           "halted": halted, "sig": f"early-start:{j}"})
